@@ -107,8 +107,10 @@ ReplyQuery(ok) ==
        [] OTHER -> Fire("ok") /\ UNCHANGED wire
   /\ UNCHANGED <<scen, pwCalls, accepted, hashOk, via, lost>>
 
-\* the connection drops
-Disconnect ==
+\* the connection ends: Tor closes it in an orderly way (clean - what it does after refusing authentication
+\* or when it shuts down) or it breaks; either way whatever is unanswered fails
+Disconnect(clean) ==
+  /\ clean \in BOOLEAN
   /\ ~lost /\ phase \notin {"init", "end"}
   /\ lost' = TRUE
   /\ IF phase = "pwwait" THEN phase' = "pwwait_lost" /\ UNCHANGED <<ready, nready>>      \* no command outstanding: decided when the provider answers
@@ -120,7 +122,7 @@ Next ==
   \/ \E k \in {"ok", "noauth", "err"} : ReplyPI(k)
   \/ \E ok \in BOOLEAN : PwResolve(ok) \/ ReplyAuth(ok) \/ ReplyQuery(ok)
   \/ \E k \in {"ok", "wronghash", "shorthash", "emptyhash", "longhash", "malformed", "err"} : ReplyChallenge(k)
-  \/ Disconnect
+  \/ \E clean \in BOOLEAN : Disconnect(clean)
 
 Spec == Init /\ [][Next]_vars
 
